@@ -7,6 +7,7 @@ import (
 
 	erpc "github.com/henrylee2cn/erpc/v6"
 	"github.com/henrylee2cn/erpc/v6/codec"
+	"github.com/henrylee2cn/erpc/v6/proto/httproto"
 	"github.com/henrylee2cn/erpc/v6/proto/jsonproto"
 	"github.com/henrylee2cn/erpc/v6/proto/pbproto"
 	"github.com/henrylee2cn/erpc/v6/proto/rawproto"
@@ -64,6 +65,8 @@ func Proto(name string) erpc.ProtoFunc {
 		return pbproto.NewPbProtoFunc()
 	case "thrift":
 		return thriftproto.NewBinaryProtoFunc()
+	case "http":
+		return httproto.NewHTTProtoFunc()
 	case "thriftstruct":
 		return thriftproto.NewStructProtoFunc()
 	}
